@@ -471,7 +471,7 @@ func c20Judge(r *Result, sp c20Spec) c20Outcome {
 func c20Minimise(sp c20Spec, o c20Outcome) c20Spec {
 	same := func(c c20Spec) bool {
 		x := c20RunHistory(c)
-		return x.Stage == o.Stage && x.Verdict == o.Verdict
+		return x.Stage == o.Stage && x.Verdict == o.Verdict && x.Err == o.Err
 	}
 	cur := sp
 	if o.Stage == "second" {
